@@ -20,7 +20,7 @@ import (
 var (
 	flagRepo    = flag.String("repo", "/repo", "repository root")
 	flagVerif   = flag.String("verif", "/verif", "verification root")
-	flagTimeout = flag.Int("timeout", 20, "per-obligation solver timeout (s)")
+	flagTimeout = flag.Int("timeout", 30, "per-obligation solver timeout (s)")
 	flagKeep    = flag.String("keep", "", "keep SMT files in this directory")
 	flagJobs    = flag.Int("j", 6, "parallel obligations (each races three solver processes)")
 	flagVerbose = flag.Bool("v", false, "verbose")
@@ -218,8 +218,6 @@ func solveAll(obls []*Obligation, dir string, timeout int) {
 		wg.Add(1)
 		go func(i int, o *Obligation) {
 			defer wg.Done()
-			sem <- struct{}{}
-			defer func() { <-sem }()
 			fn := fmt.Sprintf("%04d_%s", i, mangle(o.Name))
 			if len(fn) > 150 {
 				fn = fn[:150]
@@ -228,44 +226,57 @@ func solveAll(obls []*Obligation, dir string, timeout int) {
 			if !o.MustBeSat {
 				parts = splitGoalText(o.Goal, 24)
 			}
-			var agg *SolveResult
+			// the conjuncts of a goal are independent queries: solved in parallel (each under the job limit)
+			results := make([]SolveResult, len(parts))
+			files := make([]string, len(parts))
+			var pw sync.WaitGroup
 			for pi, part := range parts {
-				pf := fn
-				if len(parts) > 1 {
-					pf = fmt.Sprintf("%s_part%d", fn, pi+1)
-				}
-				file, err := writeQuery(dir, pf, o.QueryFor(part))
-				if err != nil {
-					o.Result = &SolveResult{Status: "error", Output: err.Error()}
-					return
-				}
-				to := timeout
-				var r SolveResult
-				if o.MustBeSat {
-					// vacuity guards only need "not unsat": one solver, short time-out
-					st, out, el := runSolver(context.Background(), solvers[0], file, 2)
-					r = SolveResult{Status: st, Solver: solvers[0].name, Time: el, Output: out, Outputs: map[string]string{solvers[0].name: truncate(out, 2000)}}
-				} else {
-					r = solve(file, to)
-				}
+				pw.Add(1)
+				go func(pi int, part string) {
+					defer pw.Done()
+					sem <- struct{}{}
+					defer func() { <-sem }()
+					pf := fn
+					if len(parts) > 1 {
+						pf = fmt.Sprintf("%s_part%d", fn, pi+1)
+					}
+					file, err := writeQuery(dir, pf, o.QueryFor(part))
+					if err != nil {
+						results[pi] = SolveResult{Status: "error", Output: err.Error()}
+						return
+					}
+					files[pi] = file
+					if o.MustBeSat {
+						// vacuity guards only need "not unsat": one solver, short time-out
+						st, out, el := runSolver(context.Background(), solvers[0], file, 2)
+						results[pi] = SolveResult{Status: st, Solver: solvers[0].name, Time: el, Output: out, Outputs: map[string]string{solvers[0].name: truncate(out, 2000)}}
+					} else {
+						results[pi] = solve(file, timeout)
+					}
+				}(pi, part)
+			}
+			pw.Wait()
+			var agg *SolveResult
+			for pi := range parts {
+				r := results[pi]
 				if agg == nil {
-					agg = &r
-					o.File = file
+					rr := r
+					agg = &rr
+					o.File = files[pi]
 				} else {
-					agg.Time += r.Time
+					if r.Time > agg.Time {
+						agg.Time = r.Time
+					}
 					if r.Status != "unsat" && agg.Status == "unsat" {
 						t := agg.Time
 						rr := r
 						agg = &rr
 						agg.Time = t
-						o.File = file
+						o.File = files[pi]
 					}
 				}
-				if r.Status != "unsat" && len(parts) > 1 {
-					o.FailedPart = part
-				}
-				if r.Status != "unsat" && !o.MustBeSat {
-					break
+				if r.Status != "unsat" && len(parts) > 1 && o.FailedPart == "" {
+					o.FailedPart = parts[pi]
 				}
 			}
 			o.Parts = len(parts)
